@@ -108,6 +108,21 @@ def _call(fn, job, tmo):
         faulthandler.cancel_dump_traceback_later()
 
 
+def _stretch():
+    """The wall budget is meant as an amount of work, not of wall time: when
+    the machine is clearly shared with other jobs (1-minute load of at least
+    1.5 per core - the check's own workers never produce that) it is
+    stretched by the same factor, at most threefold, so that what a check
+    explores - and hence its verdict - does not depend on who else is
+    running.  Read at every submission, because the load builds up while the
+    check runs."""
+    try:
+        per_core = os.getloadavg()[0] / (os.cpu_count() or 1)
+    except OSError:
+        return 1.0
+    return min(3.0, per_core) if per_core >= 1.5 else 1.0
+
+
 def run_pool(fn, jobs, nproc=None, job_timeout=600, wall_budget=None,
              on_result=None):
     """Run fn(job) for every job in forked workers.  Returns (results,
@@ -120,7 +135,7 @@ def run_pool(fn, jobs, nproc=None, job_timeout=600, wall_budget=None,
     skipped = 0
     if nproc == 1:
         for j in jobs:
-            if wall_budget and time.time() - t0 > wall_budget:
+            if wall_budget and time.time() - t0 > wall_budget * _stretch():
                 skipped += 1
                 continue
             st, r = _call(fn, j, job_timeout)
@@ -143,7 +158,8 @@ def run_pool(fn, jobs, nproc=None, job_timeout=600, wall_budget=None,
         def submit_more():
             nonlocal exhausted, skipped
             while not exhausted and len(pending) < 2 * nproc:
-                if wall_budget and time.time() - t0 > wall_budget:
+                if wall_budget and \
+                        time.time() - t0 > wall_budget * _stretch():
                     skipped += sum(1 for _ in it)
                     exhausted = True
                     return
